@@ -111,8 +111,8 @@ func ruleC14(c *Check) {
 			}
 			B := pp.Stored[len(pp.Stored)-1]
 			L := baseOf(B)
-			if L.Op == "" && strings.HasPrefix(L.At, "P") {
-				continue // plain setter / genesis setter: judged elsewhere (C19)
+			if givenRecord(L) {
+				continue // plain setter / genesis import: judged elsewhere (C19)
 			}
 			avail := field("ServiceBinding", "Available", B)
 			if avail.IsAt("#false") {
